@@ -658,7 +658,9 @@ func c07Judge(c *core.Ctx, family, seam string, tbl []ordref.Row, q c07Query, ou
 			ref := sorted[w.Start+p]
 			bad := false
 			if !ordered {
-				bad = got[p].ID != ref.ID
+				// without ORDER BY the rows come in table order - unless an analytic function or a grouping of the
+				// select form has rearranged them (family decorated): then only the number of rows is documented
+				bad = got[p].ID != ref.ID && q.Decor == 0
 			} else if r, _, ok := ordref.CmpRows(got[p], ref, q.Keys); ok && r != ordref.Tie {
 				bad = true
 			}
@@ -834,7 +836,8 @@ func c07Run(c *core.Ctx) {
 			}
 			for _, lim := range []ordref.Limit{{Kind: ordref.LimRows, N: 2}, {Kind: ordref.LimRows, N: 1, Ties: true}, {Kind: ordref.LimRows, N: 2, HasOff: true, Off: 1},
 				{Kind: ordref.LimPercent, Pct: "50"}, {Kind: ordref.LimPercent, Pct: "34", Ties: true}, {Kind: ordref.LimPercent, Pct: "50", HasOff: true, Off: 1}} {
-				for _, kl := range [][]ordref.Key{{{Col: 0}}, {{Col: 1, Dir: ordref.DirDesc}}, {{Col: 1}, {Col: 0, Dir: ordref.DirDesc}}} {
+				// nil: no ORDER BY - WITH TIES then has no sort keys to tie on, the count alone decides the cut
+				for _, kl := range [][]ordref.Key{{{Col: 0}}, {{Col: 1, Dir: ordref.DirDesc}}, {{Col: 1}, {Col: 0, Dir: ordref.DirDesc}}, nil} {
 					q := c07Query{Keys: kl, Lim: lim, Decor: d}
 					dq = append(dq, q)
 					dsql = append(dsql, q.SQL())
@@ -1250,6 +1253,9 @@ func c07NaNFamily(c *core.Ctx, r *c07Runner, maxRows int, base *int64) bool {
 // ---- replay ---------------------------------------------------------------------------------------
 
 func c07Replay(c *core.Ctx, payload json.RawMessage) {
+	if c07CustomReplay(c, payload) {
+		return
+	}
 	var p c07Payload
 	if err := json.Unmarshal(payload, &p); err != nil {
 		fmt.Println("bad payload:", err)
